@@ -586,7 +586,8 @@ impl GremlinTranslator {
                     input: Box::new(input),
                 });
                 let plan = LogicalOperator::Limit(LimitOp {
-                    count: end - start,
+                    // range(low, high) with high < low selects nothing
+                    count: end.saturating_sub(*start),
                     input: Box::new(plan),
                 });
                 Ok((plan, None))
